@@ -218,6 +218,16 @@ def intern_matrix(w, A, want_inverse, assume_symmetric=False):
     except ScalarMatrix:
         # 1x1 matrices: inverse = reciprocal, ln det = ln of the entry (positive by precondition)
         inv = S.SymArr(A.axes, {(): K.powr(A.expr, -1)}).fresh_copy() if want_inverse else None
+        if w.ld_rules_by_key:
+            skey, A_, occ_ = _scalar_key(w, A)
+            rule = w.ld_rules_by_key.get(("scalar", skey))
+            if rule is not None:
+                val = K.rename_bound(K.subst(rule["value"], dict(zip(rule["batch"], occ_))))
+                m_ = {}
+                for a_, b_ in zip(A_.axes[:-2], A.axes[:-2]):
+                    m_.update(zip(a_.comps, b_.comps))
+                w.hints_used.append(rule["lemma"])
+                return inv, S.SymArr(A.axes[:-2], {(): K.subst(val, m_)}).fresh_copy()
         return inv, S.SymArr(A.axes[:-2], {(): K.fn("log", A.expr)}).fresh_copy()
     except BlockMatrix:
         row_, col_ = A.axes[-2], A.axes[-1]
@@ -471,9 +481,24 @@ def matrix_key(w, A):
     return min(form, form2, key=repr), A, occurring
 
 
+def _scalar_key(w, A):
+    """canonical key of a 1x1 matrix family (its single entry as a function of the batch indices)"""
+    A = A.fresh_copy()
+    p = K.normalize(A.expr, w.ctx)
+    batch_comps = [c for a in A.axes[:-2] for c in a.comps]
+    occurring = [v for v in batch_comps if any(v is u for u in K._free_ivs_of_canon(p))]
+    form, _ = K._poly_form(p, {v: ("H", k) for k, v in enumerate(occurring)})
+    return form, A, occurring
+
+
 def add_logdet_rule(w, matrix, value, lemma):
     """LogDet[matrix] := value, justified by a lemma of the Lean-checked library (gtv/lemmas.py builds both sides)"""
-    key, A, occurring = matrix_key(w, matrix)
+    try:
+        key, A, occurring = matrix_key(w, matrix)
+    except ScalarMatrix:
+        # 1x1 matrix: ln det is the logarithm of the entry; the rule rewrites that logarithm
+        key, A, occurring = _scalar_key(w, matrix)
+        key = ("scalar", key)
     value = S._lift(value)
     # align value's batch axes with the matrix's batch axes
     bm = {}
